@@ -6,6 +6,7 @@ pub mod c02;
 pub mod c02_mux;
 pub mod c03;
 pub mod c03_h2;
+pub mod c03_early;
 pub mod c04;
 pub mod c05;
 pub mod c05_cluster;
